@@ -489,6 +489,7 @@ class RunLengthArray(NPSIndexable, np.lib.mixins.NDArrayOperatorsMixin):
         return self._values[np.searchsorted(self._events, idx, side="right")-1]
 
     def _ragged_slice(self, starts, stops):
+        starts, stops = (np.asanyarray(b, dtype=int) for b in (starts, stops))
         return RunLengthRaggedArray(*self._start_to_end(starts, stops))
 
     def _get_slice(self, s: slice) -> 'RunLengthArray':
